@@ -105,7 +105,7 @@ CLAIMS.update({
             "note": "trusted: TLC, runner alarm (SIGALRM) for hangs; bound is a wall-clock budget 20 s + 50 us x tasks x slots, capped by the tooling at 90 s / 400 s; declared horizons over 10 years are not generated; relative bound: 24 statement kinds written k and 2k times, the larger may cost 8 x the smaller"},
     "C12": {"engine": "E7 session", "design_ref": "DESIGN.md 5/C12",
             "technique": "TLC enumerates every API call history of Session.tla; each is replayed in one shared interpreter; observations compared with fresh-process observations by Relate.tla",
-            "text": "all histories up to length 4 (5 sampled) over parse / parse-only / repeated schedule / report / CLI path and a rejected text, under 3 hash seeds, with and without extensions, shared and fresh parser objects; SessionMut.cfg shows the model is not vacuous",
+            "text": "TLC enumerates all 28 701 histories of length 4 (and those of length 5); a seeded sample of them (480 quick; 6 000 + 1 500 of length 5 thorough) plus fifteen fixed ones over parse / parse-only / repeated schedule / report / CLI path and a rejected text, under 3 hash seeds, with and without extensions, shared and fresh parser objects; SessionMut.cfg shows the model is not vacuous",
             "note": "trusted: TLC, subprocess isolation for the fresh-process reference; the texts are three fixed shapes (inheritance-heavy DAG with tied and staggered alternatives and rates; limits + scenarios; the same tasks with the scenario value on the parent scenario) per seed"},
 })
 
